@@ -13,6 +13,7 @@ pub fn scenario(tier: &str) -> (Market, Bounds) {
         PSpec { sig: Sig::Tampered, ..spec(Who::A, Who::M1, 3, 2, 10) },
         spec(Who::B, Who::M2, 4, 2, 10),
         spec(Who::A, Who::M1, 5, 2, 1_000_000_000_000_000), // unaffordable fee
+        PSpec { client_by_key: true, ..spec(Who::A, Who::M1, 2, 4, 10) }, // second proposal, client named by key address
     ];
     let mut batches = vec![
         (Who::W1, vec![0]),
@@ -26,6 +27,8 @@ pub fn scenario(tier: &str) -> (Market, Bounds) {
         (Who::W1, vec![6, 1]),
         (Who::Z, vec![0]),
         (Who::O2, vec![0]),
+        (Who::W1, vec![2, 7]), // two different proposals naming the client by key address (escrow for one)
+        (Who::W1, vec![0, 7]),
     ];
     if th {
         batches.push((Who::O1, vec![0, 1]));
@@ -36,7 +39,7 @@ pub fn scenario(tier: &str) -> (Market, Bounds) {
         name: "lifecycle",
         specs,
         batches,
-        bases: vec!["funded"],
+        bases: vec!["funded", "tight-client"],
         publishes: if th { 3 } else { 2 },
         withdraws: 0,
         adds: 0,
